@@ -1,5 +1,5 @@
 (* C08 - CTAP1/U2F APDU parsing is total and follows the U2F raw message format. *)
-From Ctap Require Import Base Schema Wire Typed Procs Inst Tables ProcTables Finite FramingP WireP C18P U2fP.
+From Ctap Require Import Base Schema Wire Typed Procs Inst Tables ProcTables Finite FramingP WireP C18P U2fP ObByteTables.
 Local Open Scope string_scope.
 Local Open Scope Z_scope.
 
